@@ -14,10 +14,11 @@ for fn in sorted(os.listdir(os.path.join(HERE, 'mc', 'checks'))):
 
 CMD = 'cd /verif && PYTHONPATH=/repo:/verif /venv/bin/python -B -m mc %s --tier %s'
 props = [json.loads(l)['id'] for l in open(os.path.join(HERE, 'properties.jsonl'))]
+REGISTERED = set(open(os.path.join(HERE, 'tools', 'registered.txt')).read().split())
 checks, na = [], []
 for pid in props:
     m = META.get(pid)
-    if m is None or not os.path.exists(os.path.join(HERE, 'mc', 'checks', pid.lower() + '.py')):
+    if pid not in REGISTERED or m is None or not os.path.exists(os.path.join(HERE, 'mc', 'checks', pid.lower() + '.py')):
         na.append({'property_id': pid, 'reason': PENDING_REASON})
         continue
     checks.append({
